@@ -18,6 +18,31 @@ TRUSTED_BASE = [
 ]
 
 
+# the theorem files of each property (Props/<file>, or a path relative to coq/theories)
+PROPS = {
+    "C01": ["C01_nopanic.v", "C01_signals.v", "C01_parse_wf.v"],
+    "C02": ["C02_schedule.v"],
+    "C03": ["C03_stream.v", "C02_schedule.v"],
+    "C04": ["C04_json.v", "C04_roundtrip.v"],
+    "C05": ["C05_operators.v"],
+    "C06": ["C06_syntax.v", "C06_evaluates_identically.v"],
+    "C07": ["C07_control.v"],
+    "C08": ["C08_frames.v"],
+    "C09": ["C09_reads.v", "C09_stores.v"],
+    "C10": ["C10_determinism.v"],
+    "C11": ["C11_faults.v"],
+    "C12": ["C12_positions.v"],
+    "C13": ["C13_lexer.v", "C06_evaluates_identically.v"],
+    "C14": ["C14_cli.v"],
+    "C15": ["C15_arrays.v"],
+    "C16": ["C16_methods.v", "C16_numbers.v", "C16_strings.v"],
+    "C17": ["C17_print.v", "C17_render_json.v", "C16_numbers.v"],
+    "C18": ["C18_printf.v"],
+    "C19": ["C19_match.v"],
+    "C20": ["C20_depth.v", "C20_fill.v", "C20_width.v"],
+}
+
+
 class Case:
     def __init__(self, cid, line, meta=None, nontrivial=True, tags=()):
         self.id = cid
@@ -99,6 +124,7 @@ def run_check(chk, tier, replay=None):
         return 2
 
     # ---- obligations
+    chk.props = PROPS.get(chk.pid, chk.props)
     obl = B.props_status(chk.props) if chk.props else []
     broken = [o for o in obl if not o["ok"]]
     if not binfo["coq_ok"]:
